@@ -110,6 +110,12 @@ def scenarios():
     add('S3 sportshall||sportshall first-call', [], [_call(ss, 'SLJ', '1.50'), _call(ss, '100', '30.0')], tiers=('thorough',), bound=(1, 1))
     add('S3 sportshall||sportshall first-call, table build as one step', [], [_call(ss, 'SLJ', '1.50'), _call(ss, '100', '30.0')],
         bound=(2, 2), atomic=('athlib.sportshall_score', 'load_data'))
+    # marks that carry float residue and sit on a table threshold (0.7 + 0.1 = 0.7999999999999999): whatever the first caller sets up for its own thread only
+    # (a thread-local numeric context) is missing in the other thread
+    add('S3 sportshall same event, marks with float residue, first-call, table build as one step', [],
+        [_call(ss, 'SLJ', 0.7 + 0.1), _call(ss, 'SLJ', 0.1 + 0.7)], bound=(1, 2), atomic=('athlib.sportshall_score', 'load_data'))
+    add('S3 sportshall marks with float residue, warmed-up by the main thread', [_call(ss, 'SHJ', '30')],
+        [_call(ss, 'SLJ', 0.7 + 0.1), _call(ss, 'SP', 0.1 + 0.2)], bound=(1, 2))
     add('S3 sportshall||sportshall warmed-up', [_call(ss, 'SHJ', '30')], [_call(ss, 'SLJ', '1.50'), _call(ss, '100', '30.0')])
     # the same event / row in both threads (whatever is built lazily per event is built twice at once)
     add('S3 sportshall same event||same event, first use of that event, table loaded', [_call(ss, 'SHJ', '30')], [_call(ss, 'SLJ', '1.50'), _call(ss, 'SLJ', '1.75')],
